@@ -278,6 +278,123 @@ Proof.
   - apply prefix_free_pairb_ok. vm_compute. reflexivity.
 Qed.
 
+(* ==== Round 4: every datatype's TKey constructors; SplitKey / MergeKey ==== *)
+
+Theorem C06_tkey_prefix_free_imageblk : forall tk1 tk2,
+  wf_tkey keyclasses_imageblk tk1 -> wf_tkey keyclasses_imageblk tk2 -> prefix_free_pair tk1 tk2.
+Proof. exact imageblk_prefix_free. Qed.
+Print Assumptions C06_tkey_prefix_free_imageblk.
+Theorem C06_tkey_prefix_free_imagetile : forall tk1 tk2,
+  wf_tkey keyclasses_imagetile tk1 -> wf_tkey keyclasses_imagetile tk2 -> prefix_free_pair tk1 tk2.
+Proof. exact imagetile_prefix_free. Qed.
+Print Assumptions C06_tkey_prefix_free_imagetile.
+Theorem C06_tkey_prefix_free_labelarray : forall tk1 tk2,
+  wf_tkey keyclasses_labelarray tk1 -> wf_tkey keyclasses_labelarray tk2 -> prefix_free_pair tk1 tk2.
+Proof. exact labelarray_prefix_free. Qed.
+Print Assumptions C06_tkey_prefix_free_labelarray.
+Theorem C06_tkey_prefix_free_labelblk : forall tk1 tk2,
+  wf_tkey keyclasses_labelblk tk1 -> wf_tkey keyclasses_labelblk tk2 -> prefix_free_pair tk1 tk2.
+Proof. exact labelblk_prefix_free. Qed.
+Print Assumptions C06_tkey_prefix_free_labelblk.
+Theorem C06_tkey_prefix_free_labelsz : forall tk1 tk2,
+  wf_tkey keyclasses_labelsz tk1 -> wf_tkey keyclasses_labelsz tk2 -> prefix_free_pair tk1 tk2.
+Proof. exact labelsz_prefix_free. Qed.
+Print Assumptions C06_tkey_prefix_free_labelsz.
+Theorem C06_tkey_prefix_free_labelvol : forall tk1 tk2,
+  wf_tkey keyclasses_labelvol tk1 -> wf_tkey keyclasses_labelvol tk2 -> prefix_free_pair tk1 tk2.
+Proof. exact labelvol_prefix_free. Qed.
+Print Assumptions C06_tkey_prefix_free_labelvol.
+Theorem C06_tkey_prefix_free_roi : forall tk1 tk2,
+  wf_tkey keyclasses_roi tk1 -> wf_tkey keyclasses_roi tk2 -> prefix_free_pair tk1 tk2.
+Proof. exact roi_prefix_free. Qed.
+Print Assumptions C06_tkey_prefix_free_roi.
+(* one instance = one Extension *)
+Theorem C06_tkey_prefix_free_tarsupervoxels : forall ext tk1 tk2,
+  wf_tkey (keyclasses_tarsupervoxels ext) tk1 -> wf_tkey (keyclasses_tarsupervoxels ext) tk2 -> prefix_free_pair tk1 tk2.
+Proof. exact tarsupervoxels_prefix_free. Qed.
+Print Assumptions C06_tkey_prefix_free_tarsupervoxels.
+
+(* the per-class theorem behind all of them, for every class of every generated table *)
+Theorem C06_tkey_prefix_free_class : forall kc d1 d2,
+  body_ok kc d1 -> body_ok kc d2 -> prefix_free_pair (tkey_of kc d1) (tkey_of kc d2).
+Proof. exact tkey_of_prefix_free. Qed.
+Print Assumptions C06_tkey_prefix_free_class.
+
+(* the constructors that take the block coordinate as an unchecked string (imageblk/labelblk NewTKeyByCoord,
+   labelvol.NewTKey) are NOT prefix free on strings of different lengths; body_ok (the 12-byte string that
+   NewTKey(idx) passes) is a genuine hypothesis *)
+Theorem C06_tkey_raw_refuted : forall kc n, kc_shape kc = KRaw n ->
+  tkey_of kc [97] <> tkey_of kc [97; 98] /\ is_prefix (tkey_of kc [97]) (tkey_of kc [97; 98]).
+Proof. exact raw_not_prefix_free. Qed.
+Print Assumptions C06_tkey_raw_refuted.
+(* tarsupervoxels keys have no terminator: across two extensions "a", "ab" the same supervoxel's keys are prefix related *)
+Theorem C06_tkey_decsep_refuted : forall d,
+  tkey_of (kc_tarsupervoxels_NewTKey [97]) d <> tkey_of (kc_tarsupervoxels_NewTKey [97; 98]) d
+  /\ is_prefix (tkey_of (kc_tarsupervoxels_NewTKey [97]) d) (tkey_of (kc_tarsupervoxels_NewTKey [97; 98]) d).
+Proof. exact decsep_not_prefix_free. Qed.
+Print Assumptions C06_tkey_decsep_refuted.
+
+(* two different classes never collide: not as TKeys (nor is one a prefix of the other), not as storage keys *)
+Theorem C06_classes_disjoint : forall k1 k2 d1 d2,
+  body_ok k1 d1 -> body_ok k2 d2 -> kc_class k1 <> kc_class k2 ->
+  tkey_of k1 d1 <> tkey_of k2 d2 /\ ~ is_prefix (tkey_of k1 d1) (tkey_of k2 d2).
+Proof. exact datatype_classes_disjoint. Qed.
+Print Assumptions C06_classes_disjoint.
+Theorem C06_classes_never_collide : forall k1 k2 d1 d2 i v c m v' c' m',
+  id_ok i -> id_ok v -> id_ok c -> id_ok v' -> id_ok c' ->
+  body_ok k1 d1 -> body_ok k2 d2 -> kc_class k1 <> kc_class k2 ->
+  data_key i (tkey_of k1 d1) v c m <> data_key i (tkey_of k2 d2) v' c' m'.
+Proof. exact classes_never_collide. Qed.
+Print Assumptions C06_classes_never_collide.
+
+(* storage.SplitKey / storage.MergeKey: for EVERY byte string on which SplitKey succeeds, MergeKey gives it back *)
+Theorem C06_merge_split : forall k u v, split_key k = Ok (u, v) -> merge_key u v = k.
+Proof. exact merge_split. Qed.
+Print Assumptions C06_merge_split.
+(* on a constructed key the components are (prefix, instance, TKey) and (version, client, marker): what the parsers return *)
+Theorem C06_split_components : forall i tk v c m, id_ok i -> id_ok v -> id_ok c ->
+  exists u s, split_key (data_key i tk v c m) = Ok (u, s)
+    /\ u = n_dataKeyPrefix :: iid_bytes i ++ tk
+    /\ s = vid_bytes v ++ cid_bytes c ++ [m]
+    /\ tkey_from_key (Some (merge_key u s)) = Ok tk
+    /\ data_key_to_local_ids (merge_key u s) = Ok (i, v, c)
+    /\ length s = suffix_size.
+Proof. exact split_components. Qed.
+Print Assumptions C06_split_components.
+Theorem C06_split_metadata : forall tk, split_key (metadata_key tk) = Ok (metadata_split_key tk).
+Proof. exact split_metadata_key. Qed.
+Print Assumptions C06_split_metadata.
+
+(* TKeyClassRange(c) of instance i holds exactly instance i's keys of class c, for the constructors of every
+   generated class made by storage.NewTKey; every generated class is a byte, and only imagetile's legacy key
+   has no NewTKey header *)
+Theorem C06_class_range_generated : forall kc kc' i i' d v c m,
+  id_ok i -> id_ok i' -> byte_ok (kc_class kc) -> byte_ok (kc_class kc') -> has_header kc' ->
+  (in_range (fst (tkey_class_range i (kc_class kc))) (snd (tkey_class_range i (kc_class kc)))
+            (data_key i' (tkey_of kc' d) v c m) <-> (i' = i /\ kc_class kc' = kc_class kc)).
+Proof. exact class_range_generated. Qed.
+Print Assumptions C06_class_range_generated.
+Theorem C06_generated_classes_ok : forall ext kc, In kc (all_keyclasses ext) ->
+  byte_ok (kc_class kc) /\ (has_header kc \/ kc_shape kc = kc_shape kc_imagetile_NewTKey).
+Proof. exact all_keyclasses_byte_ok. Qed.
+Print Assumptions C06_generated_classes_ok.
+
+Example C06_round4_concrete :
+  wf_tkey keyclasses_imageblk (tkey_of kc_imageblk_NewTKeyByCoord (repeat 255 12))
+  /\ wf_tkey (keyclasses_tarsupervoxels [100; 97; 116]) (tkey_of (kc_tarsupervoxels_NewTKey [100; 97; 116]) [0;0;0;0;0;0;4;210])
+  /\ tkey_of (kc_tarsupervoxels_NewTKey [100; 97; 116]) [0;0;0;0;0;0;4;210]
+      = [kc_class (kc_tarsupervoxels_NewTKey []); n_tkeyStandardByte; 49; 50; 51; 52; 46; 100; 97; 116]
+  /\ dec_digits 18446744073709551615 = [49;56;52;52;54;55;52;52;48;55;51;55;48;57;53;53;49;54;49;53]
+  /\ body_ok kc_imagetile_NewTKey [3; 2; 0; 1]
+  /\ split_key (construct_data_key 1 2 3 (kv_tkey [97]))
+      = Ok ([n_dataKeyPrefix; 0;0;0;1; 177; 1; 97; 0], [0;0;0;2; 0;0;0;3; n_MarkData])
+  /\ split_key [n_dataKeyPrefix; 0; 0] = Panic /\ split_key [] = Panic /\ split_key [n_blobKeyPrefix; 5] = Err.
+Proof.
+  repeat split; try (vm_compute; reflexivity).
+  - exists kc_imageblk_NewTKeyByCoord, (repeat 255 12). repeat split. now left.
+  - eexists _, _. repeat split; [now left|]. vm_compute. now left.
+Qed.
+
 Example C06_isolation_concrete :
   let s := put {| cx_instance := 2; cx_version := 1; cx_client := 0 |} (kv_tkey [98]) [7] [] in
   instance_slice 2 (apply_iops 1 [IPut 1 0 (kv_tkey [97]) [1]; IDeleteInstance; IDeleteAllVersioned] s) = s.
